@@ -33,7 +33,7 @@ func TestC02(t *testing.T) {
 	} else {
 		fc.variants = []taintVariant{c01Variants[0], c01Variants[2]}
 	}
-	tp := &twoPass{id: "C02", salt: 2, checks: env.Pick(1000, 10000), rec: rec,
+	tp := &twoPass{id: "C02", salt: 2, checks: env.Pick(1000, 5000), rec: rec,
 		gen:   func(t *rapid.T) *flowCase { return genFlowCase(t, gogen.SanitizeProfile(off), nv) },
 		judge: fc.judge, pre: fc.pre, opt: native.Options{InProcess: true}}
 	tp.run(t)
